@@ -88,7 +88,7 @@ func (a *adapter) Reset(init map[string]tla.Value) (engine.Fields, error) {
 func (a *adapter) Apply(s engine.Step) (engine.Fields, error) {
 	arg := s.Act.Args
 	switch s.Act.Name {
-	case "Enter":
+	case "Enter", "EnterTop":
 		a.ids++
 		n := &Node{ID: a.ids, Kind: arg[0].S(), To: arg[1].S(), Val: arg[2].I()}
 		ro := n.Kind == "staticcall"
